@@ -389,6 +389,13 @@ func (w *h5World) inbound(kind string, peer *net.UDPAddr, payload []byte, viaSoc
 	}
 }
 
+// inboundQuiet hands the client a Data indication from the server without a transcript line (monitor-only scenarios)
+func (w *h5World) inboundQuiet(peer *net.UDPAddr, payload []byte) {
+	m, _ := stun.Build(stun.TransactionID, stun.NewType(stun.MethodData, stun.ClassIndication),
+		proto.PeerAddress{IP: peer.IP, Port: peer.Port}, proto.Data(payload))
+	_, _ = w.c.HandleInbound(m.Raw, w.srv.addr)
+}
+
 func (w *h5World) read() {
 	w.vt.OpSync("cread")
 	var res string
@@ -430,6 +437,7 @@ func (w *h5World) finish() {
 func TestVerifH5(t *testing.T) {
 	vt := vhOpen("h5")
 	defer vt.Close()
+	vt.Watchdog(60 * time.Second)
 	rng := vt.Rng
 	peers := []*net.UDPAddr{{IP: net.ParseIP("10.0.0.9").To4(), Port: 9000}, {IP: net.ParseIP("10.0.0.9").To4(), Port: 9001},
 		{IP: net.ParseIP("10.0.0.8").To4(), Port: 9000}, {IP: net.ParseIP("fd00::9"), Port: 9000}}
@@ -691,6 +699,42 @@ func TestVerifH5(t *testing.T) {
 			vt.Alarm("read-deadline-not-sticky", "ReadFrom with a deadline in the past: %q done=%v", r, done)
 			_ = w.conn.SetReadDeadline(time.Now())
 			synctest.Wait()
+		}
+		// two readers blocked when the deadline passes: both must be released
+		_ = w.conn.SetReadDeadline(time.Now().Add(time.Second))
+		two := make(chan string, 2)
+		for i := 0; i < 2; i++ {
+			go func() {
+				buf := make([]byte, 2048)
+				_, _, err := w.conn.ReadFrom(buf)
+				if err != nil && strings.Contains(err.Error(), "timeout") {
+					two <- "timeout"
+				} else {
+					two <- fmt.Sprintf("other %v", err)
+				}
+			}()
+		}
+		time.Sleep(2 * time.Second)
+		synctest.Wait()
+		if len(two) != 2 {
+			vt.Alarm("read-deadline-not-sticky", "two ReadFrom calls were blocked when the deadline passed: %d of them returned", len(two))
+			_ = w.conn.SetReadDeadline(time.Now())
+			synctest.Wait()
+		}
+		// extreme deadlines: far in the future = effectively none (queued data is readable), the Unix epoch = long past
+		_ = w.conn.SetReadDeadline(time.Date(2300, 1, 1, 0, 0, 0, 0, time.UTC))
+		w.inboundQuiet(&net.UDPAddr{IP: net.IPv4(10, 0, 0, 9), Port: 9000}, []byte("queued"))
+		if r, done := readOnce(); !done || r != "data" {
+			vt.Alarm("read-deadline-not-sticky", "a read deadline in the year 2300 with a datagram queued: ReadFrom gave %q (done=%v)", r, done)
+		}
+		_ = w.conn.SetReadDeadline(time.Unix(0, 0))
+		for i := 1; i <= 2; i++ {
+			if r, done := readOnce(); !done || r != "timeout" {
+				vt.Alarm("read-deadline-not-sticky", "read deadline = Unix epoch: ReadFrom #%d gave %q (done=%v)", i, r, done)
+				_ = w.conn.SetReadDeadline(time.Now())
+				synctest.Wait()
+				break
+			}
 		}
 		_ = w.conn.SetReadDeadline(time.Time{})
 		vt.Stat("deadline.scenarios")
